@@ -11,7 +11,7 @@ RULES = {
     'C03.R4': 'skip_subtree only under an Infeasible state of a non-root node',
     'C03.R5': 'a removal must not leave a decision without children (shared with C04.R3)',
 }
-FLOORS = {'C03.R1': 9, 'C03.R2': 11, 'C03.R3': 5, 'C03.R4': 2, 'C03.R5': 5}
+FLOORS = {'C03.R1': 9, 'C03.R2': 12, 'C03.R3': 5, 'C03.R4': 2, 'C03.R5': 5}
 EXPLANATION = ('A path can disappear only after the LP back-end answered "infeasible" about exactly that path; '
                'decided structurally on every removal site, for all trees and inputs.')
 DOES_NOT_DECIDE = 'whether the LP answer is right (C10), tolerance effects'
@@ -129,6 +129,7 @@ def run(ctx):
     prune.check_infeasible_provenance(ctx, 'C03.R2')
     prune.check_edge_feasible_table(ctx, 'C03.R2')
     prune.check_explore_impls(ctx, 'C03.R2')
+    prune.check_root_edges_kept(ctx, 'C03.R2')
     r3_lp_question(ctx)
     r4_skips(ctx)
     prune.check_childless(ctx, 'C03.R5')
